@@ -1131,13 +1131,18 @@ func c04OpenPipeRole(passive bool, handler hsms.DataMessageHandler, extra ...hsm
 // Select handshake by the scripted peer, then the scenario's writes. wantHandled / wantWire / wantDrop tell it
 // what to wait for (the model's prediction), so that it never sleeps a fixed time.
 func c04RunConn(s *c04Scenario, passive bool, wantDeliveries, wantWire int, wantDrop bool) c04ConnOutcome {
+	return c04RunConnScaled(s, passive, wantDeliveries, wantWire, wantDrop, 1)
+}
+
+// c04RunConnScaled: T8 and every scripted gap stretched by the same factor (see c04RunRecvScaled).
+func c04RunConnScaled(s *c04Scenario, passive bool, wantDeliveries, wantWire int, wantDrop bool, scale int) c04ConnOutcome {
 	var out c04ConnOutcome
 	var mu sync.Mutex
 	conn, client, err := c04OpenPipeRole(passive, func(msg *hsms.DataMessage, _ hsms.SECS2Endpoint) {
 		mu.Lock()
 		out.deliveries = append(out.deliveries, hexs(msg.ToBytes()[4:]))
 		mu.Unlock()
-	})
+	}, hsms.WithT8(c04T8*time.Duration(scale)))
 	if err != nil {
 		return c04ConnOutcome{err: err.Error()}
 	}
@@ -1158,12 +1163,12 @@ func c04RunConn(s *c04Scenario, passive bool, wantDeliveries, wantWire int, want
 	}()
 	for _, g := range s.segs {
 		if g.gapNs > 0 {
-			time.Sleep(time.Duration(g.gapNs))
+			time.Sleep(time.Duration(g.gapNs) * time.Duration(scale))
 		}
 		if len(g.data) == 0 {
 			continue
 		}
-		client.SetWriteDeadline(time.Now().Add(3 * time.Second))
+		client.SetWriteDeadline(time.Now().Add(3 * time.Second * time.Duration(scale)))
 		if _, err := client.Write(g.data); err != nil {
 			break
 		}
@@ -1185,7 +1190,7 @@ func c04RunConn(s *c04Scenario, passive bool, wantDeliveries, wantWire int, want
 		}
 		return fs
 	}
-	deadline := time.Now().Add(3 * time.Second)
+	deadline := time.Now().Add(3 * time.Second * time.Duration(scale))
 	for time.Now().Before(deadline) {
 		if wantDrop {
 			select {
@@ -1362,9 +1367,15 @@ func c04RealConnection(c *Ctx, allocSafe bool) {
 		c.Stat("conn:" + s.tag)
 		c.Stat("conn-role:" + map[bool]string{false: "active", true: "passive"}[i%2 == 1])
 		msg := check(i)
-		for attempt := 0; attempt < 2 && msg != "" && s.timed; attempt++ {
+		// T8 is wall-clock time on a real connection too: any mismatch is reproduced with T8 and the scripted gaps
+		// stretched x4 and x16 before it is reported (a thorough sweep at load average 150-240 reported
+		// `conn-multi-cut` with back-to-back harness writes more than 80 ms apart: false alarm, corrected)
+		for _, scale := range []int{4, 16} {
+			if msg == "" {
+				break
+			}
 			c.Stat("conn:timed-retry")
-			outs[i] = c04RunConn(s, i%2 == 1, len(preds[i].deliveries), len(preds[i].wire), preds[i].drop)
+			outs[i] = c04RunConnScaled(s, i%2 == 1, len(preds[i].deliveries), len(preds[i].wire), preds[i].drop, scale)
 			msg = check(i)
 		}
 		if msg != "" {
